@@ -102,7 +102,7 @@ let rec fmt_pty (t : tbl) (p : pty) : string =
   | PS s -> fmt_sty s
   | PArr (e, n) -> Printf.sprintf "(arr %s %s)" (fmt_pty t e) (string_of_n n)
   | PArrC (e, c) -> Printf.sprintf "(arrc %s %s)" (fmt_pty t e) (name_of t c)
-  | PArrE (e, _) -> Printf.sprintf "(other)"
+  | PArrE (e, x) -> Printf.sprintf "(arre %s %s)" (fmt_pty t e) (fmt_expr t x)
   | PTup l -> "(tup" ^ String.concat "" (Stdlib.List.map (fun a -> " " ^ fmt_pty t a) l) ^ ")"
 
 let parse_lit (x : Sx.t) : lit =
